@@ -125,6 +125,13 @@ def run_life(case):
                 c03_toc._compare(out, 'log', cf.log.toc, spec['log_toc'], lbl)
             c03_toc._compare(out, 'param', cf.param.toc, spec['param_toc'], lbl)
         cf.connected.add_callback(on_connected)
+        if case.get('reread') and spec['param_toc']:
+            # the application asks for some parameters itself as soon as the tables are there (the download of all values is running)
+            def reread(uri):
+                for i_ in case['reread']:
+                    p_ = spec['param_toc'][i_ % len(spec['param_toc'])]
+                    cf.param.request_param_update('%s.%s' % (p_['group'], p_['name']))
+            cf.connected.add_callback(reread)
 
         def on_fully(uri):
             import struct as _st
@@ -172,6 +179,18 @@ def run_life(case):
                     raise
                 except Exception as e:  # noqa
                     out.fail('life:close-link-raised', '%s: %r' % (desc, e))
+            if case.get('notify') and spec['version'] >= 4 and spec['param_toc']:
+                # value-updated notifications the firmware sends on its own (a parameter changed on the device side) during the handshake
+                def notifier(times=sorted(case['notify']), dev=env.device, sess=session):
+                    t_prev = 0.0
+                    for t_, idx in times:
+                        s.sleep(max(0.0, t_ - t_prev))
+                        t_prev = t_
+                        if len(env.world.links) == sess + 1 and not env.world.links[-1].closed:
+                            i_ = idx % len(spec['param_toc'])
+                            env.world.links[-1].deliver(dev.value_updated_packet(i_, dev.values[i_]), delay=0.0)
+                s.spawn(notifier, 'notifier')
+                out.feat('unsolicited-value-notifications')
             try:
                 if at.get('sync'):
                     def user_thread():
@@ -354,7 +373,10 @@ def life_case(draw):
     return {'nlog': draw(st.integers(0, 6)), 'nparam': draw(st.integers(0, 6)), 'mems': draw(st.lists(st.sampled_from([0, 1, 0x30]), max_size=2)),
             'version': draw(st.sampled_from([10, 10, 4, 3, -1])), 'needs_resending': draw(st.booleans()),
             'delays': draw(st.lists(st.sampled_from([0.0, 0.0, 0.001, 0.001, 0.003, 0.01, 0.21]), min_size=1, max_size=5)),
-            'attempts': draw(st.lists(_attempt, min_size=1, max_size=3)), 'schedule': draw(_sched)}
+            'attempts': draw(st.lists(_attempt, min_size=1, max_size=3)), 'schedule': draw(_sched),
+            'notify': draw(st.one_of(st.just([]), st.just([]), st.lists(st.tuples(st.sampled_from([0.004, 0.008, 0.012, 0.02, 0.03, 0.04, 0.05, 0.07, 0.1]), st.integers(0, 6)),
+                                                                         max_size=3).map(lambda l: [list(x) for x in l]))),
+            'reread': draw(st.one_of(st.just([]), st.just([]), st.lists(st.integers(0, 5), max_size=3)))}
 
 
 def sweep_cases(tier):
@@ -412,6 +434,20 @@ def history_sweep_cases(tier):
                    'attempts': [{'fault': None, 'close_at': 3.0, 'sync': j % 2 == 0}], 'schedule': {'prefix': [], 'seed': j, 'rate': 0.0}}
 
 
+def extra_value_cases(tier):
+    """healthy connections during which value packets arrive that are not the answers of the initial download: notifications sent by the
+    firmware on its own at every phase of the handshake, and reads the application issues from its connected callback"""
+    for (nlog, nparam, version, resend) in ((2, 5, 10, False), (0, 3, 10, True), (1, 4, 4, False)):
+        for k in range(0, 40 if tier == 'quick' else 120):
+            t_ = 0.002 * k + 0.0005
+            yield {'nlog': nlog, 'nparam': nparam, 'mems': [], 'version': version, 'needs_resending': resend, 'delays': [0.001],
+                   'attempts': [], 'notify': [[t_, k], [t_ + 0.004, k + 1]], 'schedule': {'prefix': [], 'seed': k, 'rate': 0.0}}
+        for rr in ([0], [1, 1], [0, 1, 2], [nparam - 1]):
+            for sync in (False, True):
+                yield {'nlog': nlog, 'nparam': nparam, 'mems': [], 'version': version, 'needs_resending': resend, 'delays': [0.001],
+                       'attempts': [{'fault': None, 'close_at': 1.0, 'sync': sync}], 'reread': rr, 'schedule': {'prefix': [], 'seed': 1, 'rate': 0.0}}
+
+
 def close_fault_cases(tier):
     """the link fails at the very packet close_link() sends (the zero setpoint), reported from inside that send: the error is then
     processed by a thread of its own while close_link() carries on - at every phase of the session, under several schedules"""
@@ -441,5 +477,6 @@ def subchecks(tier):
         Sub('duplicate-sweep', run_life, cases=dup_sweep_cases, distinct_by_construction=True),
         Sub('close-fault-sweep', run_life, cases=close_fault_cases, distinct_by_construction=True),
         Sub('history-sweep', run_life, cases=history_sweep_cases, distinct_by_construction=True),
+        Sub('extra-values', run_life, cases=extra_value_cases, distinct_by_construction=True),
         Sub('single-preemptions', run_life, cases=single_preemption_cases, distinct_by_construction=True),
     ]
